@@ -326,3 +326,23 @@ func (c *Ctx) fnsCalling(callee string) []*ssa.Function {
 	}
 	return out
 }
+
+// staticCallees: the distinct functions fn calls statically, in order of first call.
+func staticCallees(fn *ssa.Function) []*ssa.Function {
+	var out []*ssa.Function
+	seen := map[*ssa.Function]bool{}
+	for _, b := range fn.Blocks {
+		for _, ins := range b.Instrs {
+			if ci, ok := ins.(ssa.CallInstruction); ok {
+				if sc := ci.Common().StaticCallee(); sc != nil && !seen[sc] {
+					seen[sc] = true
+					out = append(out, sc)
+				}
+			}
+		}
+	}
+	return out
+}
+
+const segSliceType = "[]*" + rootPkgPath + ".Segment"
+const dropsSliceType = "[]" + roaringBitmapPtr
